@@ -42,6 +42,7 @@ type FuncResult struct {
 	Trivial     int
 	SrcHash     string
 	Lemma       *Lemma
+	AsmModel    bool
 }
 
 func (u *Universe) newExec(pkg *packages.Package, name string, r *Repr) *Exec {
@@ -86,6 +87,13 @@ func (u *Universe) verifyContract(c *Contract, variant map[string]string) (res *
 		unsupported("package %s not loaded", c.PkgPath)
 	}
 	fd, obj := findFunc(pkg, c.Key)
+	if fd != nil && obj != nil && fd.Body == nil {
+		// assembly routine: the contract is proved on the Go model generated from the .s text
+		if mfd, mobj := findFunc(pkg, c.Key+"AsmModel"); mfd != nil && mfd.Body != nil {
+			fd, obj = mfd, mobj
+			res.AsmModel = true
+		}
+	}
 	if fd == nil || obj == nil || fd.Body == nil {
 		unsupported("function %s not found in %s (contract %s does not bind)", c.Key, c.PkgPath, c.Where)
 	}
